@@ -128,8 +128,31 @@ class Effects:
         self.incoming = {}  # id(handler node) -> {exc: witness}
         self.esc = {k: {} for k in self.ix.funcs}
         self.handler_nodes = {}
+        # functions the rule instances were never confirmed against (sa/known_functions.json): their primitive may-raise sites are not
+        # propagated (no exemption table entry can exist for them yet); the check reports that as ANALYSIS-ERROR (core/unconfirmed.py)
+        try:
+            from .unconfirmed import new_function_keys
+            unconfirmed = new_function_keys(self.ix)
+        except Exception:
+            unconfirmed = set()
+        dropped = getattr(cg, "_effects_dropped", None)
+        if dropped is None:
+            dropped = cg._effects_dropped = set()
         for f in self.ix.funcs.values():
-            self.sites[f.key] = self._collect(f)
+            sites = self._collect(f)
+            g = f
+            own_new = False
+            while g is not None:
+                if g.key in unconfirmed:
+                    own_new = True
+                    break
+                g = g.parent
+            if own_new:
+                for st in sites:
+                    if st.kind == "prim" and st.excs:
+                        dropped.add((f.key, tuple(sorted(st.excs))))
+                        st.excs = {}
+            self.sites[f.key] = sites
         self._fixpoint()
 
     def suppress(self, site, exc, origin=None):
